@@ -404,6 +404,23 @@ def check_2448(ctx, u):
             ctx.fn('StringReader::' + nm)
             I.notes = []
             p = params_of(f)[0]
+            # the field is nbytes wide: a read through a checked getter must not ask for more bytes than
+            # that (a wider load throws, or reads past the end, for a field that ends the buffer)
+            wide = None
+            for c_ in walk(body_of(f)):
+                if c_.get('kind') == 'CXXMemberCallExpr' and (call_name(c_) or '') in ('pget', 'get', 'pgetv', 'getv', 'pread', 'preadx'):
+                    d_ = callee_decl(c_, u)
+                    ta_ = [x_['type']['qualType'] for x_ in kids(d_) if x_.get('kind') == 'TemplateArgument' and x_.get('type')] if d_ is not None else []
+                    sz_ = sizeof_type(ta_[0]) if ta_ else None
+                    a_ = [x_ for x_ in call_args(c_) if x_.get('kind') != 'CXXDefaultArgExpr']
+                    if call_name(c_) in ('pget', 'get') and len(a_) >= 2 and int_value(a_[1]) is not None:
+                        sz_ = int_value(a_[1])
+                    if call_name(c_) in ('pgetv', 'getv', 'pread', 'preadx') and len(a_) >= 2:
+                        sz_ = int_value(a_[-1])
+                    if sz_ is not None and sz_ > nbytes:
+                        wide = (c_, sz_)
+            if wide:
+                ctx.bad(R, nm + '|extent', wide[0], '%s reads %d bytes through `%s` for a %d-byte field: when the field is the last thing in the buffer the accessor throws (or reads past the end) although all %d bytes are present' % (nm, wide[1], src_text(wide[0], 50), nbytes, nbytes))
             try:
                 v = I.call(f, [], {}, bound={('canon', p['id']): p.get('name')})
             except Unsupported as e:
@@ -415,7 +432,10 @@ def check_2448(ctx, u):
             # the parameter is named `offset`; memory symbols are keyed by the index expression
             spec = mem_spec(order, nbytes, v.w, idx=p.get('name'))
             bad = expect_lanes(v, spec)
-            ctx.check(not bad and not I.notes, R, nm + '|lanes', f, '%d-bit %s-endian assembly: result byte j = data[offset + %s], upper bits zero' % (bits, 'big' if order == 'b' else 'little', ('%d-j' % (nbytes - 1)) if order == 'b' else 'j'),
+            if bad and all(g_ == T for _, g_, _w in bad):
+                ctx.undecided(R, nm + '|lanes', f, 'the bit map could not be derived for %d bit(s) (an operation outside the bit-provenance domain): neither confirmed nor refuted' % len(bad))
+            else:
+                ctx.check(not bad and not I.notes, R, nm + '|lanes', f, '%d-bit %s-endian assembly: result byte j = data[offset + %s], upper bits zero' % (bits, 'big' if order == 'b' else 'little', ('%d-j' % (nbytes - 1)) if order == 'b' else 'j'),
                       'lane map is not the %s-endian value of the %d bytes at offset: %s %s' % ('big' if order == 'b' else 'little', nbytes, describe_mismatch(bad), '; '.join(I.notes)))
             # sequential form: get_uNN reads at the cursor and advances by nbytes
             g = ms.get('get_u%d%s' % (bits, order))
